@@ -404,20 +404,23 @@ def minimise_history(mod, history, scn, klass, budget_s=120.0):
     return lst, execs
 
 
-def minimise(mod, scn, klass, budget_s=90.0, max_execs=4000, history=()):
-    """scn: explicit scenario that fails with class klass (after `history`
-    has been executed in the same process).  Returns a smaller explicit scenario
-    failing with the same class.  Every candidate runs in a pristine child."""
+def minimise(mod, scn, klass, budget_s=90.0, max_execs=4000, history=(), after=()):
+    """scn: explicit scenario; the sequence history + [scn] + after, executed
+    in one pristine process, ends in a violation of class klass.  Returns a
+    smaller scn for which that still holds.  (after == () : scn itself is the
+    failing run; otherwise scn is one of the earlier runs the failure needs.)
+    Every candidate runs in a pristine child."""
     t0 = time.time()
     execs = [0]
     history = list(history)
+    after = list(after)
 
     def fails(cand):
         if time.time() - t0 > budget_s or execs[0] >= max_execs:
             return False
         execs[0] += 1
         try:
-            out = exec_isolated(mod, history + [cand])[-1]
+            out = exec_isolated(mod, history + [cand] + after)[-1]
         except HarnessError:  # a candidate that breaks the harness is not smaller
             return False
         return _same_class(out, klass)
@@ -679,6 +682,11 @@ def report_violation(mod, prop, master, tier, index, v, block=0):
         history, nexec = minimise_history(mod, history, explicit, klass)
     small, n2 = minimise(mod, explicit, klass, history=history)
     nexec += n2
+    # the earlier runs the failure needs are shrunk too (a few, briefly)
+    for i in range(min(len(history), 3)):
+        h, n3 = minimise(mod, history[i], klass, budget_s=40.0, max_execs=600, history=history[:i], after=history[i + 1 :] + [small])
+        history[i] = h
+        nexec += n3
     out3 = exec_isolated(mod, history + [small])[-1]
     if not _same_class(out3, klass):
         small, out3 = explicit, exec_isolated(mod, history + [explicit])[-1]
